@@ -1,4 +1,5 @@
 import LolHtml.Lemmas.TbHop1
+import LolHtml.Lemmas.TbSw1
 /-!
 Preservation of the invariant by the "in body" rules (§13.2.6.4.7).
 -/
@@ -7,10 +8,12 @@ open LolHtml.Model (Ns)
 
 variable {b : Bool} {c : Cfg} {s : State}
 
-/-- evaluate the name tests of a rule for a concrete name (the name lists stay folded: `decide`) -/
+/-- evaluate the name tests of a rule for a concrete name (the name lists stay folded: `decide`;
+`other_isIn` / `other_beq` for `Name.other k`) -/
 macro "eval_rule" "[" defs:Lean.Parser.Tactic.simpLemma,* "]" : tactic =>
-  `(tactic| simp +decide only [$defs,*, htmlStartInBody, Res.ok, Res.ignore, Res.again, if_true, if_false,
-      Bool.false_eq_true, beq_iff_eq, reduceCtorEq, Bool.true_and, bne_iff_ne, ne_eq, Bool.not_false])
+  `(tactic| simp +decide only [$defs,*, other_isIn, other_beq, htmlStartInBody, Res.ok, Res.ignore, Res.again, if_true,
+      if_false, Bool.false_eq_true, beq_iff_eq, reduceCtorEq, Bool.true_and, Bool.false_and, bne_iff_ne, ne_eq,
+      Bool.not_false])
 
 set_option maxHeartbeats 8000000 in
 theorem inBodyStart_inv (hleg : c.legacySelect = false) (hI : Inv b s) (h1 : s.mode ≠ .text) (h2 : s.mode ≠ .inTableText)
